@@ -48,9 +48,9 @@ func TrustedKeys(trust string) []string {
 
 // Config selects how the SP is set up.
 type Config struct {
-	Trust        string `json:"trust"`                   // see Trusts
-	NoEntityID   bool   `json:"no_entity_id,omitempty"`  // audience falls back to the metadata URL
-	SPKey        string `json:"sp_key,omitempty"`        // "" = sp
+	Trust        string `json:"trust"`                  // see Trusts
+	NoEntityID   bool   `json:"no_entity_id,omitempty"` // audience falls back to the metadata URL
+	SPKey        string `json:"sp_key,omitempty"`       // "" = sp
 	AllowIDPInit bool   `json:"allow_idp_init,omitempty"`
 	AcsURL       string `json:"acs_url,omitempty"`
 }
